@@ -1,5 +1,5 @@
-(** Pure EVM code never mints (property C02), SELFDESTRUCT included: for every call tree of value
-    transfers, storage writes, logs, self-destructs and reverts the total supply after the
+(** Pure EVM code never mints (property C02), SELFDESTRUCT and CREATE included: for every call tree of value
+    transfers, storage writes, logs, self-destructs, contract creations and reverts the total supply after the
     transaction is at most the supply before — what is missing is exactly what self-destructed
     contracts held (the sanctioned burn). *)
 From Coq Require Import ZArith List Lia.
@@ -47,6 +47,11 @@ Lemma nn_suicide D a : nn D -> nn (suicide D a).
 Proof.
   intros Hn. unfold suicide. destruct (objs D !! a) as [o|] eqn:E; [|done].
   apply nn_set_obj; [|cbn; lia]. apply nn_japp; [done|]. cbn. by apply (proj1 Hn a o).
+Qed.
+Lemma nn_reset D a : nn D -> nn (reset_obj D a).
+Proof.
+  intros Hn. unfold reset_obj. destruct (objs D !! a) as [o|] eqn:E; [|done].
+  pose proof (proj1 Hn a o E) as Hb. apply nn_set_obj; [|done]. by apply nn_japp.
 Qed.
 Lemma nn_set_state W D a k v : bank_nn W -> nn D -> nn (set_state W D a k v).
 Proof.
@@ -122,6 +127,7 @@ Qed.
 Fixpoint okv (U : list N) (i : instr) : bool :=
   match i with
   | ICall t v _ _ body => (0 <=? v) && bool_decide (t ∈ U) && forallb (okv U) body
+  | ICreate addrs v _ _ _ body => (0 <=? v) && forallb (fun t => bool_decide (t ∈ U)) addrs && forallb (okv U) body
   | ISelfdestruct b => bool_decide (b ∈ U)
   | _ => true
   end.
@@ -140,17 +146,17 @@ Proof.
   split; [done|]. split; [done|]. lia.
 Qed.
 
-Lemma do_call_pure3 U order W D caller target value run :
+Lemma do_call_gen_pure3 force U order W D caller target value run :
   wf W D -> cohp W D -> nn D -> world_ok W -> bank_nn W -> NoDup U -> caller ∈ U -> target ∈ U -> 0 <= value ->
   (forall D1, wf W D1 -> cohp W D1 -> nn D1 -> pstep3 U W D1 (run (W, D1))) ->
-  pstep3 U W D (do_call order (W, D) caller target value run).
+  pstep3 U W D (do_call_gen force order (W, D) caller target value run).
 Proof.
-  intros Hwf Hc Hn Hw Hbn Hnd Hcu Htu Hv Hrun. unfold do_call, do_call_gen. rewrite !(load_id _ _ _ Hwf).
+  intros Hwf Hc Hn Hw Hbn Hnd Hcu Htu Hv Hrun. unfold do_call_gen. rewrite !(load_id _ _ _ Hwf).
   destruct (negb (value =? 0) && (cbal D caller <? value)) eqn:Hchk.
   { split; [done|]. split; [by apply ext_refl|]. split; [done|]. split; [done|]. cbn. lia. }
   assert (HD0 : (if value =? 0 then D else D) = D) by (by destruct (value =? 0)). rewrite HD0.
   rewrite !(load_id _ _ _ Hwf).
-  destruct (negb false && match objs D !! target with None => true | Some _ => false end && (value =? 0) && negb (is_precompile target)).
+  destruct (negb force && match objs D !! target with None => true | Some _ => false end && (value =? 0) && negb (is_precompile target)).
   { split; [done|]. split; [by apply ext_refl|]. split; [done|]. split; [done|]. cbn. lia. }
   set (D2 := match objs D !! target with
              | Some _ => D
@@ -198,6 +204,12 @@ Proof.
     lia.
 Qed.
 
+Lemma do_call_pure3 U order W D caller target value run :
+  wf W D -> cohp W D -> nn D -> world_ok W -> bank_nn W -> NoDup U -> caller ∈ U -> target ∈ U -> 0 <= value ->
+  (forall D1, wf W D1 -> cohp W D1 -> nn D1 -> pstep3 U W D1 (run (W, D1))) ->
+  pstep3 U W D (do_call order (W, D) caller target value run).
+Proof. apply do_call_gen_pure3. Qed.
+
 Lemma after_call_pure3 U W D0 self catch rec r : world_ok W -> bank_nn W ->
   pstep3 U W D0 r -> pstep3 U W D0 (after_call self catch rec r).
 Proof.
@@ -211,13 +223,29 @@ Proof.
   destruct (catch || _); unfold pstep3; cbn [fst snd]; tauto.
 Qed.
 
+Lemma forall_list3 U order o W body : world_ok W -> bank_nn W ->
+  Forall (fun i => pure i = true -> okv U i = true ->
+            forall order o self W D, world_ok W -> bank_nn W -> self ∈ U -> wf W D -> cohp W D -> nn D ->
+              pstep3 U W D (exec_instr order o self i (W, D))) body ->
+  forallb pure body = true -> forallb (okv U) body = true ->
+  forall t D, t ∈ U -> wf W D -> cohp W D -> nn D -> pstep3 U W D (exec_list order o t body (W, D)).
+Proof.
+  intros Hw Hbn. induction body as [|x body IHb]; intros IH Hp Hok t D Ht Hwf Hc Hn; cbn [exec_list].
+  { split; [done|]. split; [by apply ext_refl|]. split; [done|]. split; [done|]. cbn. lia. }
+  cbn [forallb] in Hp, Hok. apply andb_prop in Hp as [Hpx Hpb]. apply andb_prop in Hok as [Hox Hob].
+  inversion IH as [|? ? IHx IHrest]; subst.
+  apply (pstep3_seq U W D (exec_instr order o t x (W, D))).
+  - by apply IHx.
+  - intros D2 Hwf2 Hc2 Hn2. by apply IHb.
+Qed.
+
 Theorem pure_instr3 U : NoDup U -> forall i, pure i = true -> okv U i = true ->
   forall order o self W D, world_ok W -> bank_nn W -> self ∈ U -> wf W D -> cohp W D -> nn D ->
     pstep3 U W D (exec_instr order o self i (W, D)).
 Proof.
   intros Hnd.
-  induction i as [k v| | |a|b|t v c r body IH|ad v c r sc body|p v c r] using instr_ind'; intros Hp Hok order o self W D Hw Hbn Hself Hwf Hc Hn;
-    cbn [exec_instr].
+  induction i as [k v| | |a|b|t v c r body IH|ad v c r sc body IH|p v c r] using instr_ind'; intros Hp Hok order o self W D Hw Hbn Hself Hwf Hc Hn;
+    [cbn [exec_instr]..|idtac|cbn [exec_instr]].
   - split; [done|]. split; [by apply set_state_ext|]. destruct (set_state_facts U W D self k v Hwf Hc Hw) as [H1 H2].
     split; [done|]. split; [by apply nn_set_state|]. cbn. lia.
   - split; [done|]. split; [by apply add_log_ext|]. destruct (add_log_facts U W D Hwf Hc) as [H1 H2].
@@ -249,7 +277,39 @@ Proof.
     apply (pstep3_seq U W D1 (exec_instr order o t x (W, D1))).
     + by apply IHx.
     + intros D2 Hwf2 Hc2 Hn2. by apply IHb.
-  - discriminate.
+  - (* CREATE *)
+    cbn [pure okv] in Hp, Hok. apply andb_prop in Hok as [Hok Hcb]. apply andb_prop in Hok as [Hv Had]. apply Z.leb_le in Hv.
+    rewrite exec_create_eq. rewrite !(load_id _ _ _ Hwf).
+    destruct (negb (v =? 0) && (cbal D self <? v)).
+    { apply after_call_pure3; [done|done|]. split; [done|]. split; [by apply ext_refl|]. split; [done|]. split; [done|]. cbn. lia. }
+    pose proof (set_state_ext W D self NONCE_SLOT (read_state W D self NONCE_SLOT + 1) Hwf) as Hen.
+    destruct (set_state_facts U W D self NONCE_SLOT (read_state W D self NONCE_SLOT + 1) Hwf Hc Hw) as [Hcn Htn].
+    pose proof (nn_set_state W D self NONCE_SLOT (read_state W D self NONCE_SLOT + 1) Hbn Hn) as Hnn.
+    cbv zeta. set (D1 := set_state W D self NONCE_SLOT (read_state W D self NONCE_SLOT + 1)) in *.
+    destruct (nth_error ad (Z.to_nat (read_state W D self NONCE_SLOT))) as [t|] eqn:Hnth.
+    2:{ apply after_call_pure3; [done|done|]. split; [done|]. split; [exact Hen|]. split; [done|]. split; [done|]. cbn [fst snd]. lia. }
+    assert (Ht : t ∈ U).
+    { apply nth_error_In in Hnth. rewrite forallb_forall in Had. specialize (Had t Hnth). by apply bool_decide_eq_true in Had. }
+    apply after_call_pure3; [done|done|].
+    assert (Hstep : pstep3 U W D1 (do_call_gen true order (W, D1) self t v (create_run order o t sc body))).
+    { apply do_call_gen_pure3; auto; [apply Hen|]. intros D2 Hwf2 Hc2 Hn2. rewrite create_run_eq.
+      pose proof (reset_ext W D2 t Hwf2) as Her.
+      assert (Hrf : cohp W (reset_obj D2 t) /\ total U W (reset_obj D2 t) = total U W D2).
+      { destruct (objs D2 !! t) as [ot|] eqn:Eot; [by eapply reset_facts|]. unfold reset_obj. by rewrite Eot. }
+      destruct Hrf as [Hcr Htr].
+      destruct (forall_list3 U order o W body Hw Hbn IH Hp Hcb t (reset_obj D2 t) Ht (proj1 Her) Hcr (nn_reset D2 t Hn2))
+        as (HWb & Heb & Hcb2 & Hnb & Htb).
+      destruct (exec_list order o t body (W, reset_obj D2 t)) as [[Wb Db] ocb].
+      cbn [fst snd] in HWb, Heb, Hcb2, Hnb, Htb. subst Wb.
+      assert (He2 : ext W D2 Db) by (eapply ext_trans; eauto).
+      destruct ocb; unfold pstep3; cbn [fst snd].
+      - split; [done|]. destruct sc.
+        + destruct (set_state_facts U W Db t CODE_SLOT 1 (proj1 He2) Hcb2 Hw) as [Hcc Htc].
+          split; [eapply ext_trans; [exact He2|]; apply set_state_ext, He2|]. split; [done|]. split; [by apply nn_set_state|]. lia.
+        + split; [exact He2|]. split; [done|]. split; [done|]. lia.
+      - split; [done|]. split; [exact He2|]. split; [done|]. split; [done|]. lia. }
+    destruct Hstep as (HWs & Hes & Hcs & Hns & Hts). split; [exact HWs|]. split; [eapply ext_trans; [exact Hen|exact Hes]|].
+    split; [done|]. split; [done|]. lia.
   - discriminate.
 Qed.
 
@@ -352,4 +412,34 @@ Proof.
   split; [apply (bool_decide_unpack _); vm_compute; exact I|].
   split; [apply (bool_decide_unpack _); vm_compute; exact I|].
   split; [reflexivity|]. split; [vm_compute; reflexivity|]. vm_compute. reflexivity.
+Qed.
+
+(** the same for a program with contract creations: a creation inside a reverted frame, a creation at an address that
+    holds coins already, a constructor that self-destructs (witness taken from the implementation) *)
+Example never_mints_premises_hold_with_creations :
+  let x := Witnesses.w_cr_nested_reverted_then_selfdestruct in
+  let W0 := wit_world x in let order := wit_order x in
+  match e_top (fst (fst x)) with
+  | TopCall t body =>
+      NoDup order /\ world_ok W0 /\ bank_nn W0 /\ (forall a, a ∈ wexists W0 -> a ∈ order) /\ 0%N ∈ order /\ t ∈ order /\
+      0 <= e_value (fst (fst x)) /\ forallb pure body = true /\ forallb (okv order) body = true /\
+      existsb (fun i => match i with ICreate _ _ _ _ _ _ => true | _ => false end) body = true /\
+      supply (fst (run_tx order W0 (e_value (fst (fst x))) (TopCall t body))) = supply W0
+  | TopPre _ => False
+  end.
+Proof.
+  cbn zeta. cbv beta iota delta [Witnesses.w_cr_nested_reverted_then_selfdestruct e_top fst snd].
+  split; [apply (bool_decide_unpack _); vm_compute; exact I|].
+  split; [apply world_ok_check; apply (bool_decide_unpack _); vm_compute; exact I|].
+  split; [apply bank_nn_check; apply (bool_decide_unpack _); vm_compute; exact I|].
+  split.
+  { intros a Ha.
+    match goal with H : a ∈ wexists (wit_world ?x) |- a ∈ wit_order ?y =>
+      assert (Hs : wexists (wit_world x) ⊆ list_to_set (wit_order y)) by (apply (bool_decide_unpack _); vm_compute; exact I)
+    end.
+    apply Hs in Ha. by apply elem_of_list_to_set in Ha. }
+  split; [apply (bool_decide_unpack _); vm_compute; exact I|].
+  split; [apply (bool_decide_unpack _); vm_compute; exact I|].
+  split; [vm_compute; discriminate|].
+  split; [vm_compute; reflexivity|]. split; [vm_compute; reflexivity|]. split; [vm_compute; reflexivity|]. vm_compute. reflexivity.
 Qed.
